@@ -68,10 +68,10 @@ Print Assumptions C14_moment_transforms.
 Local Open Scope Q_scope.
 
 (** bounded comparison with the explicit Kingman chain of model/Kingman.v (exact
-    rationals, by computation): for all 2 <= k <= n <= 28 the model's variance and the
+    rationals, by computation): for all 2 <= k <= n <= 24 the model's variance and the
     stored mean equal the node-averaged variance and mean of the age of a node with k
     of n tips.  The bound is part of the statement. *)
-Theorem C14_kingman_bounded : forall n k : nat, (2 <= k <= n)%nat -> (n <= 28)%nat ->
+Theorem C14_kingman_bounded : forall n k : nat, (2 <= k <= n)%nat -> (n <= 24)%nat ->
   exists v, ccv_at QNum (LinDom QNum) n k = Some v /\
             v == kingman_var n k /\ tau_expect QNum k n == kingman_mean n k.
 Proof. exact kingman_bounded. Qed.
